@@ -239,6 +239,39 @@ def discover() -> dict:
     return {"items": items, "skipped": skipped}
 
 
+def discover_static() -> list[str]:
+    """Driver-side discovery (no import of the test modules): module-level test functions
+    whose arguments are parametrize names or fixtures with a stand-in; parametrised
+    functions become one item that runs (up to 6 of) their parameter sets in order."""
+    import ast
+    out = []
+    for m in test_modules():
+        path = os.path.join(repo_root(), *m.split(".")) + ".py"
+        try:
+            tree = ast.parse(open(path).read())
+        except (OSError, SyntaxError):
+            continue
+        for node in tree.body:
+            if not isinstance(node, ast.FunctionDef) or not node.name.startswith("test_"):
+                continue
+            deco = [ast.unparse(d) for d in node.decorator_list]
+            if any("skip" in d or "xfail" in d for d in deco):
+                continue
+            pnames: set[str] = set()
+            for d in node.decorator_list:
+                if isinstance(d, ast.Call) and ast.unparse(d.func).endswith("parametrize") and d.args:
+                    a = d.args[0]
+                    if isinstance(a, ast.Constant) and isinstance(a.value, str):
+                        pnames |= {n.strip() for n in a.value.split(",") if n.strip()}
+                    elif isinstance(a, ast.List | ast.Tuple):
+                        pnames |= {e.value for e in a.elts if isinstance(e, ast.Constant)}
+            args = [a.arg for a in node.args.args]
+            if any(a not in pnames and a not in KNOWN_FIXTURES for a in args):
+                continue
+            out.append(f"{m}::{node.name}" + ("::*" if pnames else ""))
+    return out
+
+
 # ------------------------------------------------------------------------------ running
 def run_item(item: str, canon=None) -> dict:
     """Runs one corpus item; returns {"obs": [...], "end": ...}."""
@@ -247,19 +280,25 @@ def run_item(item: str, canon=None) -> dict:
     parts = item.split("::")
     mod = importlib.import_module(parts[0])
     fn = getattr(mod, parts[1])
-    kwargs = {}
-    if len(parts) > 2:
-        kwargs.update(_param_sets(fn)[int(parts[2])])
-    for p in inspect.signature(fn).parameters:
-        if p not in kwargs:
-            kwargs[p] = _fixture(p)
+    if len(parts) > 2 and parts[2] == "*":
+        psets = (_param_sets(fn) or [{}])[:6]
+    elif len(parts) > 2:
+        psets = [_param_sets(fn)[int(parts[2])]]
+    else:
+        psets = [{}]
     _REC, _CANON, _DEPTH = [], canon, 0
-    try:
-        fn(**kwargs)
-        end = "passed"
-    except CorpusStop:
-        end = "stopped-at-emulation"
-    except BaseException as e:  # noqa: BLE001
-        end = f"raised:{type(e).__name__}"
+    ends = []
+    for ps in psets:
+        kwargs = dict(ps)
+        for p in inspect.signature(fn).parameters:
+            if p not in kwargs:
+                kwargs[p] = _fixture(p)
+        try:
+            fn(**kwargs)
+            ends.append("passed")
+        except CorpusStop:
+            ends.append("stopped-at-emulation")
+        except BaseException as e:  # noqa: BLE001
+            ends.append(f"raised:{type(e).__name__}")
     obs, _REC, _CANON = _REC, None, None
-    return {"obs": obs, "end": end}
+    return {"obs": obs, "end": ",".join(ends)}
